@@ -40,6 +40,8 @@ void register_bdd_ops();
 void register_mtbdd_ops();
 void register_text_ops();
 void register_corpus_ops();
+void register_cli_ops();
+Step cli_step(Rng& r, int client, long rep, long cmd, const std::string& lit_a, const std::string& lit_b);
 
 // text store shared by all modules (simfs)
 struct Blob { std::string bytes; std::string kind; std::string model_lit; int owner = 0; };
